@@ -63,7 +63,10 @@ pub fn foreign_handles(ctx: &mut Ctx, own: &Ontology, other: &Ontology, f: &Fact
         },
         (Ok(Err(_)), Ok(Err(_))) => None,
         // refusing handles of another instance is a legitimate policy; a DIFFERENT ontology is not
-        (Ok(Ok(_)), Ok(Err(_))) | (Ok(Ok(_)), Err(_)) => None,
+        (Ok(Ok(_)), Ok(Err(_))) | (Ok(Ok(_)), Err(_)) => {
+            ctx.bump("refused: sub_ontology given handles of another instance", 1);
+            None
+        }
         _ => Some(format!("own handles: {:?}; foreign handles: {:?}", a.as_ref().map(|r| r.as_ref().map(|_| ())), b.as_ref().map(|r| r.as_ref().map(|_| ())))),
     };
     if let Some(d) = same {
@@ -97,9 +100,10 @@ fn check_result(ctx: &mut Ctx, res: Result<Result<Ontology, String>, String>, r:
             return None;
         }
         (Ok(Err(_)), false) => return None,
-        // (sources whose treatment is open - two records of a kind with one name - may be refused as a whole)
-        (Ok(Err(_)), true) if tag == OPEN_SOURCE => {
-            ctx.bump("open_input_refused", 1);
+        // (a call whose RESULT would hold two records of a kind with one name may be refused - that treatment is open;
+        // a call whose result keeps at most one record per name has nothing open about it, whatever else the source holds)
+        (Ok(Err(_)), true) if tag == OPEN_SOURCE && result_has_same_named_records(r, is_mod, up, root, leaves) => {
+            ctx.bump("refused: sub_ontology whose result would hold two records of a kind with one name", 1);
             return None;
         }
         (Ok(Err(e)), true) => {
@@ -204,8 +208,25 @@ fn check_result(ctx: &mut Ctx, res: Result<Result<Ontology, String>, String>, r:
     Some((s, obs))
 }
 
-/// tag of `check_result` for sources that sub_ontology may refuse as a whole
+/// tag of `check_result` for sources with same-named records: sub_ontology may refuse a call whose result would hold
+/// two of them
 const OPEN_SOURCE: &str = "[same-named records] ";
+
+/// Would the result of a valid call hold two records of one kind with the same name? Decided on the input alone: the
+/// retained terms are those on a shortest chain from a leaf to root (the sources of the same-named space have three
+/// terms - no leaf has two shortest chains; with ties every term on some shortest chain counts, which only widens
+/// the excuse), a record is kept iff it is directly annotated to a retained non-modifier term.
+fn result_has_same_named_records(r: &RefOnt, is_mod: &dyn Fn(u32) -> bool, up: &Up, root: u32, leaves: &[u32]) -> bool {
+    let retained: BTreeSet<u32> = up
+        .keys()
+        .copied()
+        .filter(|t| leaves.iter().any(|l| matches!((up[l].get(t), up[t].get(&root), up[l].get(&root)), (Some(a), Some(b), Some(c)) if a + b == *c)))
+        .collect();
+    (0..3).any(|k| {
+        let mut names: BTreeSet<&str> = BTreeSet::new();
+        r.recs[k].values().filter(|rec| rec.terms.iter().any(|t| retained.contains(t) && !is_mod(*t))).any(|rec| !names.insert(rec.name.as_str()))
+    })
+}
 
 #[allow(clippy::too_many_arguments)]
 pub fn check_one(ctx: &mut Ctx, src: &Ontology, r: &RefOnt, mode: Mode, up: &Up, root: u32, leaves: &[u32], case: &dyn Fn() -> Value, custom_roots: Option<&BTreeSet<u32>>) {
@@ -322,7 +343,7 @@ fn large(ctx: &mut Ctx) {
 /// re-annotation that goes through names would merge or drop them.
 fn same_named(ctx: &mut Ctx) {
     let dags = crate::space::all_dags(3);
-    ctx.space("same-named-records/roots-x-leaves", &format!("{} labelled DAGs over [1, 118, 119] x 8 subsets S (the same-named fact sets of C02: genes 11 <- S, 12 <- complement(S), OMIM 1 <- S, 2 <- rot1(S), ORPHA 1 <- rot2(S), 2 <- S) built with defaults through the Builder and the decoder (a Builder, and a sub_ontology call, may refuse a second record of a name) x every root x all single leaves and ordered pairs", dags.len()));
+    ctx.space("same-named-records/roots-x-leaves", &format!("{} labelled DAGs over [1, 118, 119] x 8 subsets S (the same-named fact sets of C02: genes 11 <- S, 12 <- complement(S), OMIM 1 <- S, 2 <- rot1(S), ORPHA 1 <- rot2(S), 2 <- S) built with defaults through the Builder and the decoder (a Builder or decoder may refuse a second record of a name; a sub_ontology call may refuse only when its result would hold two records of a kind with one name) x every root x all single leaves and ordered pairs", dags.len()));
     for d in &dags {
         for s in 0..8u32 {
             if !ctx.take() {
@@ -339,11 +360,17 @@ fn same_named(ctx: &mut Ctx) {
             match drive::build(&f, Mode::Defaults) {
                 Ok(o) => sources.push((o, "Builder::build_with_defaults")),
                 // unique names within a kind is a policy a Builder may have
-                Err(e) if e.starts_with("annotate_") => ctx.bump("open_input_refused", 1),
+                Err(e) if e.starts_with("annotate_") => ctx.bump("refused: source with same-named records, by the Builder", 1),
                 Err(e) => ctx.violation("Builder", "construction fails on valid facts", json!({"facts": f.to_json(), "observed": e})),
             }
-            if let Ok(Ok(o)) = drive::from_bytes(&encode::encode(&f, &EncOpts::v(3))) {
-                sources.push((o, "from_bytes"));
+            // (... and one a decoder may have)
+            match drive::from_bytes(&encode::encode(&f, &EncOpts::v(3))) {
+                Ok(Ok(o)) => sources.push((o, "from_bytes")),
+                Ok(Err(_)) => ctx.bump("refused: source with same-named records, by from_bytes", 1),
+                Err(p) => ctx.violation("Ontology::from_bytes", "panics on a file laid out as documented (records sharing a name)", json!({"facts": f.to_json(), "observed": p})),
+            }
+            if sources.is_empty() {
+                ctx.bump("skipped: same-named source that no constructor accepted", 1);
             }
             let mut collections: Vec<Vec<u32>> = ids.iter().map(|a| vec![*a]).collect();
             for a in &ids {
@@ -408,8 +435,9 @@ pub fn run(ctx: &mut Ctx) {
             }
         }
         if !has_flag {
-            if let Ok(o) = drive::build(f, Mode::Minimal) {
-                sources.push((o, Mode::Minimal, "Builder::build_minimal"));
+            match drive::build(f, Mode::Minimal) {
+                Ok(o) => sources.push((o, Mode::Minimal, "Builder::build_minimal")),
+                Err(e) => ctx.violation("Builder", "construction fails on valid facts", json!({"family": what, "facts": f.to_json(), "observed": e})),
             }
         }
         // leaf collections
@@ -454,15 +482,20 @@ pub fn run(ctx: &mut Ctx) {
         // root and leaves named through handles of ANOTHER Ontology instance (the same terms and links, no
         // records at all): a sub-ontology is cut out of the ontology the method is called on - the handles
         // only say which terms are meant
-        if !has_flag && idx % 4 == 2 {
+        // (idx % 4 == 2 selects sources of six terms only - the flag-free sources of three to five terms sit at
+        // multiples of 4; idx % 16 == 8 takes some of those in)
+        if !has_flag && (idx % 4 == 2 || idx % 16 == 8) {
             let mut skeleton = f.clone();
             skeleton.anns.clear();
-            if let (Ok(own), Ok(other)) = (drive::build(f, Mode::Minimal), drive::build(&skeleton, Mode::Minimal)) {
-                for &root in &ids {
-                    for leaves in collections.iter().filter(|l| l.len() <= 2) {
-                        foreign_handles(ctx, &own, &other, f, root, leaves, what);
+            match (drive::build(f, Mode::Minimal), drive::build(&skeleton, Mode::Minimal)) {
+                (Ok(own), Ok(other)) => {
+                    for &root in &ids {
+                        for leaves in collections.iter().filter(|l| l.len() <= 2) {
+                            foreign_handles(ctx, &own, &other, f, root, leaves, what);
+                        }
                     }
                 }
+                (a, b) => ctx.violation("Builder", "construction fails on valid facts", json!({"family": what, "facts": f.to_json(), "observed": [a.err(), b.err()], "note": "second: the same terms and links without records"})),
             }
         }
         // the same source with term names beyond 255 bytes (only the Builder and the text loader can carry them;
@@ -478,13 +511,16 @@ pub fn run(ctx: &mut Ctx) {
                 };
             }
             let rl = RefOnt::derive(&fl);
-            if let Ok(o) = drive::build(&fl, Mode::Minimal) {
-                for &root in &ids {
-                    for leaves in collections.iter().filter(|l| l.len() == 1) {
-                        let case = || json!({"family": what, "source": f.to_json(), "source_constructor": "Builder::build_minimal, term names of 256 / 300 / 257 / 1000 bytes", "root": root, "leaves": leaves});
-                        check_one(ctx, &o, &rl, Mode::Minimal, &up, root, leaves, &case, None);
+            match drive::build(&fl, Mode::Minimal) {
+                Ok(o) => {
+                    for &root in &ids {
+                        for leaves in collections.iter().filter(|l| l.len() == 1) {
+                            let case = || json!({"family": what, "source": f.to_json(), "source_constructor": "Builder::build_minimal, term names of 256 / 300 / 257 / 1000 bytes", "root": root, "leaves": leaves});
+                            check_one(ctx, &o, &rl, Mode::Minimal, &up, root, leaves, &case, None);
+                        }
                     }
                 }
+                Err(e) => ctx.violation("Builder", "construction fails on valid facts (term names of 256 / 300 / 257 / 1000 bytes)", json!({"family": what, "facts": f.to_json(), "observed": e})),
             }
         }
         // custom modifier roots installed through the public modifier_mut(): each free term in turn, and each pair
@@ -498,6 +534,7 @@ pub fn run(ctx: &mut Ctx) {
             }
             for custom_set in root_sets {
                 let custom = custom_set[0];
+                // (a failing construction is reported above, for the same facts)
                 if let Ok(mut o) = drive::build(f, Mode::Minimal) {
                     for x in &custom_set {
                         o.modifier_mut().insert(*x);
@@ -517,6 +554,7 @@ pub fn run(ctx: &mut Ctx) {
         if has_flag && n <= 5 && idx % 3 == 1 {
             let free: Vec<u32> = ids.iter().copied().filter(|i| *i != 1 && *i != 118).collect();
             for custom in free {
+                // (the same bytes were decoded above; a refusal is reported there)
                 if let Ok(Ok(mut o)) = drive::from_bytes(&encode::encode(f, &EncOpts::v(3))) {
                     *o.modifier_mut() = hpo::term::HpoGroup::new();
                     o.modifier_mut().insert(custom);
